@@ -28,7 +28,7 @@ MIN_NONTRIVIAL = {"quick": 150, "thorough": 1500}
 RULE = (
     "cases: (accelerator configuration, accfg program) pairs. Configurations: snax_hwpe_mult, gemmini (RoCC), snax_alu / snax_gemmx / "
     "snax_xdma / snax_phs with seeded streamer configurations (1-6 streamers, 1-6 temporal dims with n/i/r flags, 1-2 spatial dims, option and "
-    "extension subsets, gemmx m/n/k 1..16, PHS switch counts 0..6); the accfg.accelerator op comes from generate_acc_op() of the current tree. "
+    "extension subsets, gemmx m/n/k 1..16 (launches with per-channel quantisation attributes in 40% of the gemmx cases), PHS switch counts 0..6); the accfg.accelerator op comes from generate_acc_op() of the current tree. "
     "Programs: accfg-family ASTs over that accelerator's real field and launch-field names, taken after one of the stages "
     "{as written, trace-states, +dedup, +dedup+overlap}. Reference = accfg-level program on the name-indexed machine; subject = "
     "the same program after convert-accfg-to-csr on the address-indexed CSR machine (csrw/csrr/.insn interpreted), same environments "
@@ -46,6 +46,10 @@ def gen_case(rng, tier):
     prof["top_stmts"] = rng.randint(1, 4)
     prof["llvm_call"] = False
     case = {"cfg": cfg, "stage": rng.choice([0, 1, 2, 2, 3, 3]), "prof": prof, "gseed": rng.randrange(1 << 30)}
+    if cfg["kind"] == "gemmx":
+        case["per_channel"] = rng.random() < 0.4
+        if case["per_channel"]:
+            cfg["mnk"][1] = rng.choice([4, 8, 8, 12, 16])  # the shift packing of the rescale paths needs n % 4 == 0 (pack_bitlist raises otherwise)
     case["envs"] = gen_envs(rng, K_ENVS[tier])
     case["ast"] = None  # filled lazily: the number of fields depends on the configuration (current tree)
     return case
@@ -67,7 +71,74 @@ def materialise(case):
         prof["n_launch"] = [len(lfields)]
         prof["launch_pool"] = ["%one", "%k0", "%k1"] if case["cfg"]["kind"].startswith("synth") else ["%one", "%zero", "%k0", "%k1"] if rocc else (["%zero"] if case["cfg"]["kind"] == "hwpe_mult" else ["%one", "%one", "%k0"])
         case["ast"] = G.AccfgGen(random.Random(case["gseed"]), prof).program()
+        if case["cfg"]["kind"] == "gemmx" and case.get("per_channel"):
+            decorate_per_channel(case["ast"], random.Random(case["gseed"] + 1), case["cfg"]["mnk"][1], fields)
     return acc, acc_op, fields, lfields, style, rocc
+
+
+def decorate_per_channel(ast, rng, n, fields):
+    """gemmx launches with per-output-channel quantisation: 2-3 groups of n channels; the setup in front programs the
+    values of group 0 (what convert_to_acc_ops emits), as constants - so a repeated execution is what dedup optimises."""
+
+    def walk(body):
+        for st in body:
+            if st["k"] == "sl" and len(st.get("lvals", [])) == 2 and rng.random() < 0.5:
+                groups = rng.choice([2, 2, 3])
+                st["pc"] = {
+                    "m": groups * rng.randint(1, 4),
+                    "mult": [rng.randrange(1, 1 << 20) for _ in range(groups * n)],
+                    "shift": [rng.randrange(0, 64) for _ in range(groups * n)],
+                }
+                # producer invariant: the setup in front holds the values of group 0 (constants)
+                vals = list(st["vals"])
+                consts = ast.setdefault("extra_consts", {})
+                for j in range(n):
+                    nm = f"%pc{len(consts)}"
+                    consts[nm] = st["pc"]["mult"][j]
+                    vals[fields.index(f"mult_{j}")] = nm
+                for j in range(0, n, 4):
+                    word = 0
+                    for k, x in enumerate(st["pc"]["shift"][j : min(j + 4, n)]):
+                        word |= x << (8 * k)
+                    nm = f"%pc{len(consts)}"
+                    consts[nm] = word
+                    vals[fields.index(f"shift_{j // 4}")] = nm
+                st["vals"] = vals
+            for key in ("body", "then", "else", "gap"):
+                if st.get(key):
+                    walk(st[key])
+
+    walk(ast["body"])
+
+
+def per_channel_invariant_holds(ast, n, fields):
+    """every per-channel launch follows a setup that programs the shift / mult values of its channel group 0 (as constants):
+    the form convert_to_acc_ops produces, and the only one the launch lowering has to be right for."""
+    consts = ast.get("extra_consts", {})
+
+    def ok(st):
+        pc = st["pc"]
+        if len(st["vals"]) < len(fields) or len(pc["mult"]) % n or len(pc["mult"]) != len(pc["shift"]) or len(pc["mult"]) < 2 * n:
+            return False
+        for j in range(n):
+            if consts.get(st["vals"][fields.index(f"mult_{j}")]) != pc["mult"][j]:
+                return False
+        for j in range(0, n, 4):
+            word = 0
+            for k, x in enumerate(pc["shift"][j : min(j + 4, n)]):
+                word |= x << (8 * k)
+            if consts.get(st["vals"][fields.index(f"shift_{j // 4}")]) != word:
+                return False
+        return True
+
+    def walk(body):
+        return all((not st.get("pc") or ok(st)) and all(walk(st.get(k, [])) for k in ("body", "then", "else", "gap")) for st in body)
+
+    return walk(ast["body"])
+
+
+def has_per_channel(body):
+    return any(st.get("pc") or any(has_per_channel(st.get(k, [])) for k in ("body", "then", "else", "gap")) for st in body)
 
 
 def context_with(acc):
@@ -112,6 +183,10 @@ def execute(case):
     if inj:
         out.update(status="violation", oracle="register-map-injective", message=inj)
         return out
+    if has_per_channel(case["ast"]["body"]) and not (case["cfg"]["kind"] == "gemmx" and per_channel_invariant_holds(case["ast"], case["cfg"]["mnk"][1], fields)):
+        out["status"] = "rejected"
+        out["rejected"] = "workload:per-channel-launch-without-its-setup"
+        return out
     src = program_text(case, acc, acc_op, fields, lfields, rocc)
     stage = STAGES[case["stage"]]
     try:
@@ -130,7 +205,11 @@ def execute(case):
     decls = {acc.name: decl}
     launches = 0
     digests = []
+    pc = has_per_channel(case["ast"]["body"])
     for i, env in enumerate(case["envs"]):
+        if pc:
+            # the split between streamer launch and array launches has no documented timing: device latency is not injected
+            env = dict(env, latency=0)
         out["runs"] += 2
         out["zero_fault_runs"] += 2 * is_zero_fault(env)
         zero = (acc.name,) if rocc else ()
@@ -142,6 +221,7 @@ def execute(case):
                 out["probes"]["guard-skipped-env"] = out["probes"].get("guard-skipped-env", 0) + 1
                 continue
         ms = CsrMachine(S, env, [decl], label="sub")
+        ms.split_launch = pc
         ms.step_limit = 600_000
         try:
             ms.run_single("f", G.env_args(env), Core(0))
@@ -152,6 +232,7 @@ def execute(case):
             # liveness: an await must return once its device is idle - judged after a retry with all faults off
             calm = dict(env, latency=0, clobber=False)
             ms2 = CsrMachine(S, calm, [decl], label="sub")
+            ms2.split_launch = pc
             ms2.step_limit = max(50_000, 20 * mr.steps)
             try:
                 ms2.run_single("f", G.env_args(calm), Core(0))
@@ -163,7 +244,7 @@ def execute(case):
                 return out
             out["probes"]["step-limit-under-faults-only"] = out["probes"].get("step-limit-under-faults-only", 0) + 1
             continue
-        d = compare_csr(normalise_reference(mr.hist, decls), normalise_subject(ms.hist, decls), decls)
+        d = compare_csr(normalise_reference(mr.hist, decls, split_launch=pc), normalise_subject(ms.hist, decls), decls, ignore_writes=pc)
         if d:
             out.update(status="violation", oracle="csr-history", message=d, env_index=i)
             return out
@@ -171,7 +252,7 @@ def execute(case):
         merge(out["probes"], ms.probes)
         merge(out["faults"], ms.faults)
         out["probes"]["kind-" + case["cfg"]["kind"]] = out["probes"].get("kind-" + case["cfg"]["kind"], 0) + 1
-        launches += sum(1 for h in mr.hist if h[0] == "launch")
+        launches += sum(1 for h in mr.hist if h[0] in ("launch", "pclaunch"))
         digests.append(digest_of([(h[0], h[1]) for h in ms.hist], ms.steps))
     out["nontrivial"] = bool(launches)
     out["digest"] = digest_of(digests)
@@ -227,7 +308,8 @@ META = {
     + [
         "a write to a launch register starts a job; consecutive launch-register writes form one job",
         "busy + performance-counter status registers sit at launch_streamer+1/+2 and are read-only (get_streamer_launch_dict comment)",
-        "barrier styles 2 and 4 are used by no accelerator class of the repo: they are exercised through two synthetic accelerators defined in /verif (SNAXAccelerator + SNAXPollingBarrier2 / 4); style 4 model: a write of 0 to a launch register starts nothing and blocks while the device is busy; gemmx launches carrying mult_vals (channel-wise rescale) are not generated",
+        "barrier styles 2 and 4 are used by no accelerator class of the repo: they are exercised through two synthetic accelerators defined in /verif (SNAXAccelerator + SNAXPollingBarrier2 / 4); style 4 model: a write of 0 to a launch register starts nothing and blocks while the device is busy; ",
+        "gemmx launches with per-output-channel quantisation (attributes m / mult_vals / shift_vals; 40% of the gemmx cases, n in {4,8,12,16}, 2-3 channel groups): semantics restated from the comments of lower_acc_launch - streamers launched once, then per group of n channels the array is launched and awaited with M = temporal_loop_bound = m / #groups, mult_j = value j of the group, byte k%4 of shift_{k//4} = shift value k of the group; the registers keep the values of the last group. Each such launch follows a setup holding the group-0 values as constants (what convert_to_acc_ops emits). For these programs field writes are not compared as multisets (the launch lowering issues its own), only the register contents at every launch-register write, the launch writes and the awaits; device latency is not injected (the timing between streamer and array launch is documented nowhere)",
         "values compared mod 2^32 (CSR) / 2^64 (RoCC); order of field writes inside one setup is not compared",
     ],
     "interleavings": "single core: 1",
